@@ -70,7 +70,7 @@ pub struct SampledKeyView {
 #[derive(Clone, Debug, Eq, PartialEq)]
 pub enum Event {
     /// The command worker finished executing a queued command (before acknowledging it).
-    /// `ack` is the address of the command's acknowledgement (`Arc::as_ptr`), which the caller also holds.
+    /// `ack` is the id of the command's acknowledgement (`CommandAcknowledgement::verif_id`), which the caller can read too.
     Executed { ack: usize, kind: String, status: CommandStatus, begin: u64, end: u64, thread: u64 },
     /// The worker acknowledged a command as ShuttingDown without running it.
     Drained { ack: usize, stamp: u64 },
@@ -214,6 +214,11 @@ thread_local! {
     static CURRENT: RefCell<Option<Arc<Instance>>> = RefCell::new(None);
     static LAST_UPSERT_IN_PLACE: RefCell<Option<bool>> = RefCell::new(None);
 }
+
+static ACK_IDS: AtomicU64 = AtomicU64::new(1);
+
+/// A process-wide unique id for an acknowledgement (identifies a command in trace events).
+pub(crate) fn next_ack_id() -> u64 { ACK_IDS.fetch_add(1, Ordering::Relaxed) }
 
 /// A value unique to the calling thread while it lives.
 pub fn thread_tag() -> u64 { THREAD_TAG.with(|tag| tag as *const u8 as u64) }
